@@ -600,12 +600,28 @@ def resolve_action(base, decision):
         raise NotImplementedError("The action \"%s\" is not defined" % a)
 
 
+def _copy_tree(obj):
+    """Deep copy of a JSON-like tree where every sub-object is a new object.
+
+    Unlike copy.deepcopy, sub-objects that occur in several places of obj do
+    not share a single copy, so that one place can be patched by itself.
+    """
+    if isinstance(obj, dict):
+        new = copy.copy(obj)
+        for key, value in obj.items():
+            new[key] = _copy_tree(value)
+        return new
+    elif isinstance(obj, list):
+        return [_copy_tree(value) for value in obj]
+    return copy.deepcopy(obj)
+
+
 def apply_decisions(base, decisions):
     """Apply a list of merge decisions to base.
     """
     from .strategies import combine_patches
 
-    merged = copy.deepcopy(base)
+    merged = _copy_tree(base)
     prev_path = None
     parent = None
     last_key = None
